@@ -136,7 +136,11 @@ theorem appendNew_rejects_dup {α} (errE : Err) (name : α → String) (acc : Li
 
 /-- The model has exactly four rejection branches: the three library errors and the stack overflow of a
     re-entrant field thunk (finding S1b). There is no branch for `ValueError`, `CoercionError`,
-    `InvalidValue`, `TypeError` any more (fix C11-S1). -/
+    `InvalidValue`, `TypeError` any more (fix C11-S1).
+    OMITS: everything about `build` — the conclusion holds of every value of `Err` (the proof only splits the
+    constructor), in particular it does not bound the CLASS of the internal branch.  The statement it stands for is
+    `no_other_branch` (Props/C11_flags.lean, from `build_rejects`): the fourth class is `RecursionError` only, and
+    `build_internal_of_thunkCycle` says when it is taken. -/
 theorem no_other_branch_partial (doc : Doc) (ie : Bool) (add : List TypeD) (e : Err) (h : build doc ie add = .error e) :
     e = .lib .sdl ∨ e = .lib .ext ∨ e = .lib .schema ∨ ∃ c, e = .internal c := by
   cases e with
